@@ -28,6 +28,7 @@ class Report:
         self.technique = technique
         self.t0 = time.time()
         self.violations = []
+        self._keys = set()
         self.obligations = 0
         self.discharged = 0
         self.samples = []
@@ -47,12 +48,16 @@ class Report:
             if sample is not None and len(self.samples) < 40:
                 self.samples.append(sample)
         else:
-            self.violations.append(Violation(rule, where, key, msg, path))
+            if key not in self._keys:
+                self._keys.add(key)
+                self.violations.append(Violation(rule, where, key, msg, path))
         return ok
 
     def violation(self, rule, where, key, msg, path=None):
         self.obligations += 1
-        self.violations.append(Violation(rule, where, key, msg, path))
+        if key not in self._keys:
+            self._keys.add(key)
+            self.violations.append(Violation(rule, where, key, msg, path))
 
     def ok(self, n=1, sample=None):
         self.obligations += n
